@@ -132,3 +132,11 @@ for _n in ("dataiter/data_frame.py::DataFrame.read_csv[restriction]", "dataiter/
            "dataiter/list_of_dicts.py::ListOfDicts.read_csv[restriction]", "dataiter/list_of_dicts.py::ListOfDicts.read_json[restriction]",
            "dataiter/list_of_dicts.py::ListOfDicts.from_json[restriction]", "dataiter/geojson.py::GeoJSON.read[restriction]"):
     bounded_only("C14", _n, _WHY)
+
+
+# ---- C18: GeoJSON read / write --------------------------------------------------------------------------------------------
+# read and write are loops over json values and file writes: the statement is about the JSON text on disk and about nested dict /
+# list values produced by json.load; validity and equality of JSON text need string reasoning that neither back end decides
+# (DESIGN.md section 4 C18).  Bounded run-time contracts only; the property is claimed at level 'exploration', not 'proof'.
+bounded_only("C18", "dataiter/geojson.py::GeoJSON.read[faithful]", "json.load + nested loops building a dict of lists; compared with the feature collection on the real code")
+bounded_only("C18", "dataiter/geojson.py::GeoJSON.write[faithful]", "text emitted with f.write / json.dumps: validity and content of the JSON text checked by parsing the written file")
